@@ -108,21 +108,21 @@ FORMULA = ("; expression shapes read off MIR by direct provenance (documented fo
            "by abstract interpretation, loop must-pass-through; reports are cross-checked on a second view with unknown helpers inlined")
 EXTRA_TEXT = {
     "C01": " Also decided: the formula, forbid rule and depot-kind table of can_reach, the turnaround formula with its same-place test, the receiver type table.",
-    "C02": " Also decided: comparator direction of the guards, which limit the combined value is taken from, capacity_for capped by the total, no Ok before the capacity test.",
-    "C03": " Also decided: polarity of the dead-head listing and the two documented placements of a dead-head trip.",
+    "C02": " Also decided: comparator direction of the guards, which limit the combined value is taken from, capacity_for capped by the total, no Ok before the capacity test, both kind tests dominate every growth site, a departure reads the limit of its own route segment.",
+    "C03": " Also decided: polarity of the dead-head listing and the two documented placements of a dead-head trip, the three formation edits (unconditional push, order-keeping replace/remove), no dropping adaptor in front of a formation update.",
     "C04": " Also decided: the signs and operand sides of every incremental update (tour figures, schedule costs, transition totals and cycle counters), the maintenance-counter and idle-time formulas, unscaled indicators. Values are not decided.",
     "C05": " Also decided: the successor formula (p+1 mod len) and that the initial clustering loses no vehicle.",
     "C06": " Also decided: overflow capacity formula, connection bound is a max, arc directions, depot-kind table of can_reach, 3-opt operands and index order.",
-    "C07": " Also decided: formation seats/capacity getters, trip upper bound, the unserved cache rebuilt with the formations.",
+    "C07": " Also decided: formation and vehicle seats/capacity getters, trip upper bound, the unserved cache rebuilt with the formations, the growth guards read the limit that applies to the node.",
     "C08": " Also decided: the figures the levels compare are maintained with the right signs (tour, cost, transition rules shared with C09/C15) and handed over unscaled.",
     "C09": " Also decided since §7.4: signs and operand sides of every delta (what leaves is subtracted, what comes is added), depot neighbours, the maintenance flag as a truth table, helper-maintained caches updated on every path. Values inside the position arithmetic of the segment helpers are not decided.",
-    "C12": " Also decided: bisection stop test and which node time each search reads, reference times, both halves of the gap-test guard, loop form of the walks.",
-    "C13": " Also decided: remove_segment guard, enumerate-before-filter in fit_path_into_tour, overwrite index of the overflow fallback.",
-    "C14": " Also decided: direction of all four arc kinds, connection bound/cost forms, decoder key provenance, zero-flow polarity, end depots decoded, spawning cost over all five rates.",
+    "C12": " Also decided: bisection stop test and which node time each search reads, reference times, both halves of the gap-test guard, loop form of the walks, depots of a path stripped independently for dummy tours.",
+    "C13": " Also decided: remove_segment guard, enumerate-before-filter in fit_path_into_tour, overwrite index of the overflow fallback, order-keeping formation edits, None-only-if-reachable of the two position searches.",
+    "C14": " Also decided: direction of all four arc kinds, connection bound/cost forms, decoder key provenance, zero-flow polarity, end depots decoded, spawning cost over all five rates, idle cost waived only next to a depot, the range sentinels are the extremes of the derived NodeIdx order, the turnaround tables.",
     "C15": " Also decided since §7.4: cycle neighbours (p-1/p+1 with wrap tests, end/start depots), counter deltas with signs, total signs and clamping, 3-opt transfer operands, the four slices of the new cycle, index order i<j<k, lookup written on every path.",
-    "C16": " Also decided: maintenance_considered polarity, successor formula, transitions stored (not merged).",
+    "C16": " Also decided: maintenance_considered polarity, successor formula with wrap-around, transitions stored (not merged).",
     "C17": " Also decided: network formulas and predicates (can_reach, turnaround, idle time, duration, Nowhere => Infinity, type compatibility), overflow capacity formula, loader completeness loops, zero-passenger substitution.",
-    "C18": " Also decided: body limit lifted, multi-threaded runtime, get_id answers for Nowhere, dead-head matrix loaded under its own indices.",
+    "C18": " Also decided: body limit lifted, multi-threaded runtime, get_id answers for Nowhere, dead-head matrix loaded under its own indices, cycle neighbours of the incremental counters reported with the answer.",
 }
 
 NA = {}
